@@ -165,17 +165,19 @@ class Collector(list):
 
 
 def shard_long(args):
-    """Long input ahead of the report: every length 0..420 and a sparser sweep up to 1 500, both CSI forms, with and without escape
+    """Long input ahead of the report: every length 0..420, the neighbourhoods of 500 / 512 / 720 / 1 000 / 1 024 and a sparser sweep up to 1 500, both CSI forms, with and without escape
     sequences inside; and a callback object that is callable but falsy."""
     tier, seed, idx = args
     from curtsies.window import CursorAwareWindow
 
     acc = Acc(seed=seed)
     lengths = list(range(0, 421)) + ([512, 719, 720, 721, 1000, 1024, 1100] if tier != "thorough" else list(range(421, 1500, 3)))
-    for li, L in enumerate(lengths):
+    # the neighbourhood of round sizes (the query is cubic in the amount of type-ahead, so only ESC-free filler here)
+    near = sorted({m + d for m in (500, 512, 720, 1000, 1024) for d in range(-9, 2)} - set(lengths))
+    for li, L in enumerate(lengths + near):
         if li % 16 != idx:
             continue
-        for filler in ("a", "ab\x1b[A"):
+        for filler in (("a", "ab\x1b[A") if li < len(lengths) else ("a",)):
             pre = (filler * (L // len(filler) + 1))[:L]
             if pre.endswith("\x1b") or pre.endswith("\x1b["):
                 pre = pre[: pre.rfind("\x1b")] + "zz"[: len(pre) - pre.rfind("\x1b")]
